@@ -1096,7 +1096,7 @@ Definition clean_program (u : list (bytes * list bytes)) (body : list stmt) : op
   end.
 
 Inductive pres :=
-| POk (body : list stmt) (used : list (bytes * list bytes)) (prefix : bytes)
+| POk (body : list stmt) (used : list (bytes * list bytes)) (prefix : bytes) (inc : list bytes)   (* inc: files whose code is part of the program so far *)
 | PErr
 | PFuel.
 
@@ -1108,10 +1108,10 @@ Section Files.
   Definition lookup_file (p : bytes) : option fentry := aget p (e_fs E).
 
   (* the duplicate filter at the end of evaluateImports *)
-  Fixpoint import_filter (c : ctx) (stmts : list stmt) (acc : list stmt) : ctx * list stmt :=
+  Fixpoint import_filter (c : ctx) (stmts : list (stmt * bool)) (acc : list stmt) : ctx * list stmt :=
     match stmts with
     | [] => (c, acc)
-    | st :: r =>
+    | (st, emit) :: r =>
         match st with
         | SVarDef vs _ =>
             let '(c', ex) := fold_left (fun ce v =>
@@ -1122,20 +1122,20 @@ Section Files.
                                          then (mkCtx (c_imports c1) (aset (v_name v) v (c_vars c1)) (c_funcs c1) (c_scopes c1), false)
                                          else (c1, false)
                                end) vs (c, false) in
-            import_filter c' r (if ex then acc else acc ++ [st])
+            import_filter c' r (if ex || negb emit then acc else acc ++ [st])
         | SFunc name rets params _ pub =>
             match aget name (c_funcs c) with
             | Some _ => import_filter c r acc
             | None =>
                 let c' := if pub then mkCtx (c_imports c) (c_vars c) (aset name (mkFdef name rets params pub) (c_funcs c)) (c_scopes c) else c in
-                import_filter c' r (acc ++ [st])
+                import_filter c' r (if emit then acc ++ [st] else acc)
             end
-        | _ => import_filter c r (acc ++ [st])
+        | _ => import_filter c r (if emit then acc ++ [st] else acc)
         end
     end.
 
   (* parser.parse on a file whose entry (content, prefix) has been looked up *)
-  Fixpoint parse_entry (depth : nat) (stack : list bytes) (path : bytes) (imported : bool) (fe : fentry) : pres :=
+  Fixpoint parse_entry (depth : nat) (stack : list bytes) (inc0 : list bytes) (path : bytes) (imported : bool) (fe : fentry) : pres :=
     match depth with
     | O => PFuel
     | S depth' =>
@@ -1153,7 +1153,7 @@ Section Files.
                   nl <- peek ;;
                   (if tok_is nl NEWLINE then eat ;;; ret tt else guard (tok_is nl EOF)) ;;;
                   ret (alias, snd pt) in
-                let import_one (c : ctx) (stmts : list stmt) : P (ctx * list stmt) :=
+                let import_one (c : ctx) (stmts : list (stmt * bool)) (inc : list bytes) : P (ctx * list (stmt * bool) * list bytes) :=
                   ap <- p_import ;;
                   let '(alias0, ipath) := ap in
                   let abs0 := if is_abs ipath then ipath else path_join (dirname path) ipath in
@@ -1167,18 +1167,18 @@ Section Files.
                   let '(abs, alias) := target in
                   guard (negb (mem abs (stack ++ [path]))) ;;;
                   match (match lookup_file abs with
-                         | Some fe' => parse_entry depth' (stack ++ [path]) abs true fe'
+                         | Some fe' => parse_entry depth' (stack ++ [path]) (abs :: inc) abs true fe'
                          | None => PErr          (* os.Stat fails *)
                          end) with
                   | PFuel => nofuel
                   | PErr => fail
-                  | POk body iused iprefix =>
+                  | POk body iused iprefix inc' =>
                       guard (match aget alias (c_imports c) with Some _ => false | None => true end) ;;;
                       u <- get_used ;;
                       set_used (merge_used u iused) ;;;
-                      ret (add_import c alias iprefix, stmts ++ body)
+                      ret (add_import c alias iprefix, stmts ++ map (fun st => (st, negb (mem abs inc))) body, inc')
                   end in
-                let p_imports (c : ctx) : P (ctx * list stmt) :=
+                let p_imports (c : ctx) : P (ctx * list (stmt * bool) * list bytes) :=
                   t <- peek ;;
                   if tok_is t IMPORT then
                     eat ;;;
@@ -1186,31 +1186,31 @@ Section Files.
                     if tok_is nx OPENING_ROUND_BRACKET then
                       eat ;;;
                       expect NEWLINE ;;;
-                      (fix loop (c : ctx) (stmts : list stmt) (n : nat) : P (ctx * list stmt) :=
+                      (fix loop (c : ctx) (stmts : list (stmt * bool)) (inc : list bytes) (n : nat) : P (ctx * list (stmt * bool) * list bytes) :=
                          match n with
                          | O => nofuel
                          | S n' =>
-                             cs <- import_one c stmts ;;
-                             let '(c', stmts') := cs in
+                             cs <- import_one c stmts inc ;;
+                             let '(c', stmts', inc') := cs in
                              nx <- peek ;;
-                             if tok_is nx CLOSING_ROUND_BRACKET then eat ;;; ret (c', stmts')
-                             else if tok_is nx IDENTIFIER || tok_is nx STRING_LITERAL then loop c' stmts' n'
+                             if tok_is nx CLOSING_ROUND_BRACKET then eat ;;; ret (c', stmts', inc')
+                             else if tok_is nx IDENTIFIER || tok_is nx STRING_LITERAL then loop c' stmts' inc' n'
                              else fail
-                         end) c [] fuel
-                    else import_one c []
-                  else ret (c, []) in
-                let whole : P (list stmt) :=
+                         end) c [] inc0 fuel
+                    else import_one c [] inc0
+                  else ret (c, [], inc0) in
+                let whole : P (list stmt * list bytes) :=
                   cs <- p_imports new_ctx ;;
-                  let '(c1, itemp) := cs in
+                  let '(c1, itemp, inc1) := cs in
                   let '(c2, istmts) := import_filter c1 itemp [] in
                   let c3 := add_import c2 prefix prefix in
                   body <- p_block_content prefix [EOF] no_callback c3 ScProgram fuel ;;
-                  ret (istmts ++ body) in
+                  ret (istmts ++ body, inc1) in
                 match whole (mkPS ts [] []) with
-                | Ok body s =>
-                    if imported then POk body (used s) prefix
+                | Ok (body, inc1) s =>
+                    if imported then POk body (used s) prefix inc1
                     else match clean_program (used s) body with
-                         | Some b => POk b (used s) prefix
+                         | Some b => POk b (used s) prefix inc1
                          | None => PFuel
                          end
                 | Err => PErr
@@ -1222,7 +1222,7 @@ Section Files.
   (* parser.Parse(path) *)
   Definition parse_main (path : bytes) : pres :=
     match lookup_file path with
-    | Some fe => parse_entry (S (length (e_fs E))) [] path false fe
+    | Some fe => parse_entry (S (length (e_fs E))) [] [] path false fe
     | None => PErr
     end.
 End Files.
